@@ -1502,11 +1502,56 @@ func (x *r2Order) callObligations() []Obligation {
 			// the slice is re-pushed by the spawning method: find its loop over the []Value parameter
 			repush := 0
 			repushDesc := ""
-			for _, g := range r.fns {
-				obj, _ := g.info.Defs[g.fd.Name].(*types.Func)
-				if obj == nil || !lsSpawnsCore(c, obj, nil) {
-					continue
+			// the spawning method and the helpers it hands its []Value parameter to
+			// (`core := self.spawnCoreWithStack(addToStack)`)
+			var spawnFns []*vmFn
+			{
+				byObjRT := map[*types.Func]*vmFn{}
+				for _, g := range r.fns {
+					if obj, _ := g.info.Defs[g.fd.Name].(*types.Func); obj != nil {
+						byObjRT[obj] = g
+					}
 				}
+				seenSp := map[*vmFn]bool{}
+				var addSp func(g *vmFn, depth int)
+				addSp = func(g *vmFn, depth int) {
+					if seenSp[g] || depth > 2 {
+						return
+					}
+					seenSp[g] = true
+					spawnFns = append(spawnFns, g)
+					params := map[types.Object]bool{}
+					for _, po := range vmParamObjs(g) {
+						if po != nil {
+							params[po] = true
+						}
+					}
+					ast.Inspect(g.fd.Body, func(n ast.Node) bool {
+						call, ok := n.(*ast.CallExpr)
+						if !ok {
+							return true
+						}
+						h := byObjRT[CalleeOf(g.info, call)]
+						if h == nil {
+							return true
+						}
+						for _, a := range call.Args {
+							if o := vmObjOf(g.info, a); o != nil && params[o] {
+								if sl, ok := o.Type().Underlying().(*types.Slice); ok && vmIsNamed(sl.Elem(), "homescript/runtime/value", "Value") {
+									addSp(h, depth+1)
+								}
+							}
+						}
+						return true
+					})
+				}
+				for _, g := range r.fns {
+					if obj, _ := g.info.Defs[g.fd.Name].(*types.Func); obj != nil && lsSpawnsCore(c, obj, nil) {
+						addSp(g, 0)
+					}
+				}
+			}
+			for _, g := range spawnFns {
 				ast.Inspect(g.fd.Body, func(n ast.Node) bool {
 					s, ok := n.(ast.Stmt)
 					if !ok {
